@@ -10,6 +10,8 @@ import NaijaVerif.Lemmas.AnalysisBase
 import NaijaVerif.Lemmas.AnalysisLiveTop
 import NaijaVerif.Lemmas.AnalysisLiveMono
 import NaijaVerif.Lemmas.AnalysisLiveModel
+import NaijaVerif.Lemmas.AnalysisRefineLawful
+import NaijaVerif.Lemmas.EvalToy
 /-
 C03 — analysis-driven pruning never changes what a program does.
 
@@ -49,6 +51,12 @@ Proved here, for every program, every primitive semantics and every amount of fu
 * `c03_partial_ext` / `c03_partial_checked`: the older static special case (stores to never-read
   variables), kept because its hypotheses are lighter.
 * `c03_full_raw_is_false`: without the laws about the primitive operations the statement is false.
+* **`c03_concrete`** — the closed corollary for the EXECUTABLE instance: `c03_full_holds` at
+  `evalPrims cfg (declScopeOf facts) (stmtScopeOf facts)` (`Model/AnalysisPrims.lean`: the primitive
+  steps of the shared evaluator model `Model/Eval.lean`, for any number type and run configuration;
+  `Lawful` by `evalPrims_lawful`, `ScopesFrom` by construction).  No hypothesis about the primitive
+  semantics is left.  This very instance (at the driver's float numbers) is what the `arun` stream of
+  the check runs against the real runtime, plain and pruned, on the real AST, facts and plan.
 Still evaluated per program rather than proved: the table-consistency conjuncts of `structOkB`
 (`storeTabB`: true by construction of the model's tables for distinct, pre-order statement ids; a
 proof needs the position arguments "`i ∈ unusedAsg` refers to THIS occurrence of statement `i`").
@@ -406,6 +414,23 @@ theorem c03_full_holds : c03_full := by
   intro V P ty Lw root facts plan fuel hP hs hsub hfuel hunb hpan
   exact c03_full_checked P ty Lw root facts plan fuel hP (modelOk_of_struct root facts hs) hsub hfuel hunb hpan
 
+/-- **C03 for the executable instance** (`Model/AnalysisPrims.lean`): the evaluator fragment with the
+primitive steps of the evaluator model `Model/Eval.lean` — for every number type, run configuration
+(host policy, process runner, std string operations), program, facts, plan contained in the model's
+plan and amount of fuel.  The laws `Lawful` are proved for this instance (`evalPrims_lawful`) and its
+scopes are the facts' by construction, so the only hypotheses left are about the program and its
+facts (`structOkB`, decidable, evaluated by the driver on every case of the tie) and the three
+excluded endings of the plain run.  The `arun` stream of the check compares exactly this instance
+(at the driver's float numbers) with the real runtime, with and without the real plan. -/
+theorem c03_concrete {N : Type} [NumOps N] (cfg : Eval.RunCfg) (root : Block) (facts : Facts) (plan : Plan) (fuel : Nat)
+    (hs : structOkB root facts = true) (hsub : plan.sub (planModel root facts) = true)
+    (hfuel : (run (evalPrims (N := N) cfg (declScopeOf facts) (stmtScopeOf facts)) none fuel root).1 ≠ .error .fuel)
+    (hunb : (run (evalPrims (N := N) cfg (declScopeOf facts) (stmtScopeOf facts)) none fuel root).1 ≠ .error .unbound)
+    (hpan : (run (evalPrims (N := N) cfg (declScopeOf facts) (stmtScopeOf facts)) none fuel root).1 ≠ .error .panic) :
+    observable (run (evalPrims (N := N) cfg (declScopeOf facts) (stmtScopeOf facts)) (some plan) fuel root) =
+      observable (run (evalPrims (N := N) cfg (declScopeOf facts) (stmtScopeOf facts)) none fuel root) :=
+  c03_full_holds (Eval.Value N) _ tyE (evalPrims_lawful cfg _ _) root facts plan fuel ⟨rfl, rfl⟩ hs hsub hfuel hunb hpan
+
 /-! ### Non-vacuity -/
 
 /-- `return` followed by a statement: the second statement is unreachable, ids are distinct, and
@@ -467,6 +492,23 @@ def demo3Facts : Facts where
 
 example : planModel demo3 demo3Facts = ⟨[1], []⟩ := by decide
 example : structOkB demo3 demo3Facts = true := by decide
+
+/-- Non-vacuity of `c03_concrete` (toy `Int` numbers, `Lemmas/EvalToy.lean`): on `demo3` the plan
+`{1}` is contained in the model's plan, the plain run ends normally and prints `3`; the pruned run
+really skips statement 1 (the traces differ) — and prints the same. -/
+def demo3Prims : Prims (Eval.Value Int) := evalPrims Eval.Toy.cfg (declScopeOf demo3Facts) (stmtScopeOf demo3Facts)
+
+example : (⟨[1], []⟩ : Plan).sub (planModel demo3 demo3Facts) = true := by decide
+example : (run demo3Prims none 20 demo3).1 = .ok .normal := rfl
+example : (run demo3Prims none 20 demo3).2.trace = [3, 2, 1, 0] := rfl
+example : (run demo3Prims (some ⟨[1], []⟩) 20 demo3).2.trace = [3, 2, 0] := rfl
+example : observable (run demo3Prims none 20 demo3) = ([.num 3], none) := rfl
+example : observable (run demo3Prims (some ⟨[1], []⟩) 20 demo3) = ([.num 3], none) := by
+  rw [show run demo3Prims (some ⟨[1], []⟩) 20 demo3 =
+      run (evalPrims Eval.Toy.cfg (declScopeOf demo3Facts) (stmtScopeOf demo3Facts)) (some ⟨[1], []⟩) 20 demo3 from rfl,
+    c03_concrete Eval.Toy.cfg demo3 demo3Facts ⟨[1], []⟩ 20 (by decide) (by decide)
+      (by intro h; cases h) (by intro h; cases h) (by intro h; cases h)]
+  rfl
 
 /-- A primitive semantics in which the literal `1` fails: not `Lawful`. -/
 def badPrims : Prims Unit where
